@@ -97,6 +97,21 @@ func registerHarnessIntrinsics() {
 		},
 		"verifDependsOn": hDependsOn,
 		"verifUF":        hUF,
+		"verifResultOwned": func(e *Exec, a []Value, s *ssa.CallCommon) Value {
+			// no object reachable from the value is a pool object, a package-level object or
+			// caller-owned (protected) memory
+			ok := true
+			e.walkObjs(a[0], func(o *Obj) {
+				if o == nil || o.kind == "const" {
+					return
+				}
+				if o.pooled || o.kind == "global" || o.prot || o.kind == "pool" {
+					ok = false
+					e.notes = append(e.notes, fmt.Sprintf("ALIAS: result shares %s object %q", o.kind, o.label))
+				}
+			}, map[*Cell]bool{})
+			return e.tb.Bool(ok)
+		},
 		"verifByteAt": func(e *Exec, a []Value, s *ssa.CallCommon) Value {
 			b := a[0].(*SliceV)
 			i := a[1].(*Term)
